@@ -791,7 +791,7 @@ pub fn rec_hostile(args: &Args) {
     let mut r = Rng::new(seed ^ 0xC11);
     let mut out = Out::create(args.s("out"));
     let start = Instant::now();
-    let n = if thorough { 40000 } else { 2500 };
+    let n = if thorough { 40000 } else { 1800 };
     for _ in 0..n {
         let m = match r.below(6) { 0 => r.below(65) as usize, 1 => 1152, 2 => r.below(5001) as usize, 3 => *r.pick(&[0usize, 19, 20, 21, 22, 32]), 4 => 1280, _ => r.range(16, 80) as usize };
         let mut h = H::new(&mut out, m, 3_600_000, start);
@@ -857,10 +857,10 @@ pub fn rec_hostile(args: &Args) {
     // buffer and whose payload is shorter than, equal to or longer than the declared size
     for pszx in [0u8, 2] {
         let psize = 1usize << (pszx + 4);
-        for prefix in [1usize, 3] {
+        for prefix in if thorough { vec![1usize, 3] } else { vec![2usize] } {
             for szx in [0u8, 1, 2, 6] {
                 let size = 1usize << (szx + 4);
-                for num in [0u16, 1, 2, 3, 5, 12] {
+                for num in if thorough { vec![0u16, 1, 2, 3, 5, 12] } else { vec![0u16, 1, 2, 3, 12] } {
                     for pl in [0usize, 1, size - 1, size, size + 1, size + 17, 1200] {
                         let more = (num as usize + pl) % 2 == 0;
                         let mut h = H::new(&mut out, 4000, 3_600_000, start);
